@@ -57,6 +57,36 @@ def read_targets_through_filter():
     return guarded("read-filter", run)
 
 
+def call_order_through_convert():
+    """through convert(): the calls of one statement are made in the order in which Color BASIC evaluates the functions - left to right,
+    operands before the function that takes them - whichever functions they are (no function is 'sampled first')"""
+    def run():
+        import re
+        from coco.b09.compiler import convert
+        res = []
+        fns = {"BUTTON(1)": ["ecb_button"], "JOYSTK(0)": ["ecb_joystk"], "JOYSTK(1)": ["ecb_joystk"], "INT(A)": ["ecb_int"], "VAL(A$)": ["ecb_val"], "POINT(1,2)": ["ecb_point"], "INSTR(1,A$,B$)": ["ecb_instr"],
+               "LEN(STR$(A))": ["ecb_str"], "ASC(INKEY$)": ["inkey"], "LEN(HEX$(3))": ["ecb_hex"], "INT(VAL(A$))": ["ecb_val", "ecb_int"], "BUTTON(JOYSTK(0))": ["ecb_joystk", "ecb_button"]}
+        frames = {"sum": "X=%s+%s", "PRINT items": "PRINT %s;%s", "comparison": "IF %s>%s THEN 10", "arguments": "SOUND %s,%s", "subscripts": "Q(%s,%s)=1"}
+        for fname, frame in frames.items():
+            bad, n = [], 0
+            for f, fc in fns.items():
+                for g, gc in fns.items():
+                    n += 1
+                    src = "10 " + frame % (f, g)
+                    text = convert(src + "\n", add_standard_prefix=False)
+                    line = next(l for l in text.split("\n") if l.startswith("10 "))
+                    got = [c for c in re.findall(r"(?i)run (\w+)\(", re.sub(r'"[^"]*"', '""', line)) if c in ("ecb_button", "ecb_joystk", "ecb_int", "ecb_val", "ecb_point", "ecb_instr", "inkey", "ecb_hex") or (c == "ecb_str" and "STR$" in src)]
+                    want = fc + gc
+                    if fname == "PRINT items":      # numeric print items are formatted by ecb_str calls of their own: compare the others
+                        got = [c for c in got if c != "ecb_str"]
+                        want = [c for c in want if c != "ecb_str"]
+                    if [c for c in got if c in set(want)] != want:
+                        bad.append("%s -> %s" % (src, got))
+            res.append(ob("call-order/%s" % fname, not bad, "calls in source order for all %d ordered pairs" % n, bad[:3] or "%d pairs" % n))
+        return res
+    return guarded("call-order", run)
+
+
 def direct_delivery():
     """`target = F(args)` is exactly one call that stores into the target, for every kind of target, with and without LET (shared with C07: the emitted
     statement is a RUN statement, not `LET RUN ...`)"""
@@ -202,6 +232,7 @@ def patcher_steps():
     out += guarded("patch/assignment of a wrapped call", step6)
 
     out += direct_delivery()
+    out += call_order_through_convert()
     out += read_targets_through_filter()
     from tx.p_c09 import temporaries_are_generated_names
     out += share("destinations/", temporaries_are_generated_names())
